@@ -1,6 +1,6 @@
 #!/usr/bin/env python3
 """Writes MANIFEST.json from the table below (kept as code so that it always validates)."""
-import json, os
+import json, os, re
 VERIF = os.path.dirname(os.path.dirname(os.path.abspath(__file__)))
 LEVEL_NOTE = ("Trusted: Lean 4.33 kernel (axioms propext, Classical.choice, Quot.sound only; audited by #print axioms each run); "
               "the Go fact extractor (go/extract) and the differential harness + Lean driver that tie the hand-written model to /repo's working tree; "
@@ -10,7 +10,7 @@ sys.path.insert(0, os.path.join(VERIF, 'tools'))
 sys.path.insert(0, os.path.join(VERIF, 'tools', 'checks'))
 CLAIMED = {}
 for fn in sorted(os.listdir(os.path.join(VERIF, 'tools', 'checks'))):
-    if fn.startswith('C') and fn.endswith('.py'):
+    if re.fullmatch(r'C\d\d\.py', fn):  # Cxx_part.py modules are helpers of a Cxx.py
         mod = importlib.import_module(fn[:-3])
         CLAIMED[fn[:-3]] = mod.MANIFEST
 NOT_YET = {}
